@@ -130,7 +130,7 @@ def main(tier: str, replay: str | None = None):
         run.exhaustive = False
         run.note(f"replayed a seeded sample of 9000 of the {len(gen.cases)} cases TLC checked")
     facts = replay_cases(run, cases, procs)
-    need = {"load-raised", "runtime-module-replaced", "deref-kind-ok", "deref-kind-fail", "deref-ovl-ok", "deref-ovl-fail"}
+    need = {"load-raised", "runtime-module-replaced", "deref-ovl-ok", "deref-ovl-fail"}   # (kind-test dereferences: fixed)
     if not run.violations and not need <= facts:
         run.note(f"behaviours of the real code no longer observed: {sorted(need - facts)}")
     run.extra["facts"] = sorted(facts)
